@@ -194,7 +194,7 @@ def run_cbmc(u, binary, prop_ids=None, timeout=300, route=None, slice_formula=Fa
     if slice_formula and '--slice-formula' not in base:
         base = base + ['--slice-formula']    # single obligation: cone of influence (assumptions are kept)
     cmd = base + ['--json-ui', '--trace']
-    if u.get('no_trace', u['module'].get('no_trace', False)):
+    if u.get('no_trace', u['module'].get('no_trace', False)) or u.get('trace_mode') == 'text':
         cmd = base + ['--trace']     # marker only: the plain-text path below drops it
     for p in (prop_ids or []):
         cmd += ['--property', p]
@@ -229,6 +229,33 @@ def run_cbmc(u, binary, prop_ids=None, timeout=300, route=None, slice_formula=Fa
     if results is None:
         return None, 'no result (rc=%d): %s %s' % (rc, msgs[-600:], err[-300:]), dt
     return results, msgs, dt
+
+
+def text_trace(u, binary, prop_id, timeout):
+    """counterexample of one obligation from cbmc's plain-text trace (for units whose json trace is too large: a 1.6 MB record
+    in every step); returns steps in the shape of the json trace"""
+    cmd = cbmc_base(u) + ['--trace', '--property', prop_id, binary]
+    rc, out, err, dt, to = sh(cmd, timeout=timeout, mem_kb=u.get('mem_kb', DEFAULT_MEM_KB))
+    if to:
+        return []
+    steps = []
+    fn = ''; line = None
+    for ln in out.split('\n'):
+        if len(ln) > 4000:
+            continue
+        m0 = re.match(r'^State \d+ file (\S+) function (\S+) line (\d+)', ln)
+        if m0:
+            fn, line = m0.group(2), m0.group(3); continue
+        m0 = re.match(r'^State \d+', ln)
+        if m0:
+            fn, line = '', None; continue
+        m1 = re.match(r'^  ([A-Za-z_][\w$!@.\[\]]*)=(.*?)(?: \(([01 ]+)\))?$', ln)
+        if m1:
+            v = dict(data=m1.group(2))
+            if m1.group(3):
+                v['binary'] = m1.group(3).replace(' ', '')
+            steps.append(dict(stepType='assignment', lhs=m1.group(1), value=v, sourceLocation=dict(function=fn, line=line)))
+    return steps
 
 def ensures_labels(spec_text):
     """map (function, N) -> short label of the N-th ensures clause (the comment in front of it, else its text)"""
@@ -367,6 +394,10 @@ def run_unit(u, keep=False, jobs=4):
             if r.get('route'):
                 ob['route'] = r['route']
             res['obligations'].append(ob)
+        if u.get('trace_mode') == 'text':
+            todo = [o for o in res['obligations'] if o['status'] == 'FAILURE' and not o.get('expect_fail')][:u.get('max_traces', 3)]
+            for o in todo:
+                o['trace'] = text_trace(u, b['binary'], o['id'], u.get('timeout', 300))
         if n_reach == 0 and not u.get('no_reach', False):
             res['status'] = 'undecided'
             res['note'] += 'no vg_reach marker: vacuity not guarded; '
@@ -436,7 +467,7 @@ def native_replay(u, inputs, rfile):
     cmd = ['gcc', '-g', '-O0', '-fsanitize=address,undefined', '-fno-sanitize-recover=undefined', '-msse4.2',
            '-I' + os.path.join(REPO, 'include'), '-I' + os.path.join(REPO, 'include_prv'), '-I' + os.path.join(REPO, 'src'),
            '-I' + os.path.join(VERIF, 'stubs'), '-I' + m['dir'], '-D__FILENAME__="replay"',
-           '-DVG_NATIVE=1', '-DVG_REPLAY_ENTRY=' + u['replay'], drv] + srcs + \
+           '-DVG_NATIVE=1', '-DVG_REPLAY_ENTRY=' + u['replay']] + ['-D' + d for d in (m.get('defines', []) + u.get('defines', [])) if d.startswith('VG_')] + [drv] + srcs + \
           [os.path.join(VERIF, x) for x in u.get('replay_link', ['stubs/log_stub.c'])] + ['-o', exe, '-lm', '-lpthread']
     rc, out, err, dt, to = sh(cmd, timeout=120, mem_kb=None)
     if rc != 0:
